@@ -1,6 +1,7 @@
 package c20
 
 import (
+	"bytes"
 	"fmt"
 	"hash/fnv"
 	"os"
@@ -598,8 +599,28 @@ func TestChildProbes(t *testing.T) {
 	}
 	probes := probeList(lang)
 	res := make([]string, len(probes))
-	for _, i := range probeOrder(len(probes), mode, seed) {
-		res[i] = runOwn(call{e: pe, in: []byte(probes[i]), prog: []byte{byte((opt + i) % 4)}})
+	if mode == "parallel" {
+		// the first calls of the process are made by 16 goroutines at once (state that is filled in on first use meets
+		// its first users all together)
+		var wg sync.WaitGroup
+		start := make(chan struct{})
+		for g := 0; g < 16; g++ {
+			wg.Add(1)
+			go func(g int) {
+				defer wg.Done()
+				<-start
+				for i := g; i < len(probes); i += 16 {
+					res[i] = run(call{e: pe, in: []byte(probes[i]), prog: []byte{byte((opt + i) % 4)}})
+				}
+			}(g)
+		}
+		close(start)
+		wg.Wait()
+		reuseCopies()
+	} else {
+		for _, i := range probeOrder(len(probes), mode, seed) {
+			res[i] = runOwn(call{e: pe, in: []byte(probes[i]), prog: []byte{byte((opt + i) % 4)}})
+		}
 	}
 	for i, r := range res {
 		fmt.Printf("PROBE %d %s\n", i, r[:16])
@@ -607,7 +628,7 @@ func TestChildProbes(t *testing.T) {
 }
 
 func TestProp_FreshProcess(t *testing.T) {
-	ev.Describe("fresh", "for a drawn language, entry point and option byte (which then changes from probe to probe): the digests of every probe (each hostile fragment alone and in three contexts, every literal of the package's tests) computed in this process in list order must equal those computed by a fresh child process that meets the same probes in reverse or in a strided order; non-trivial = every case")
+	ev.Describe("fresh", "for a drawn language, entry point and option byte (which then changes from probe to probe): the digests of every probe (each hostile fragment alone and in three contexts, every literal of the package's tests) computed in this process in list order must equal those computed by a fresh child process that meets the same probes in reverse or in a strided order, or all at once in 16 goroutines (a data race or fatal error of that process is a violation); non-trivial = every case")
 	ev.Assume("the child process is the same test binary (os.Args[0]) started with VERIF_C20_CHILD; it reads the same repository literals")
 	byLang := map[string][]int{}
 	for i, e := range entries {
@@ -621,13 +642,16 @@ func TestProp_FreshProcess(t *testing.T) {
 		lang := rapid.SampledFrom(probeLangs).Draw(t, "lang")
 		pe := rapid.SampledFrom(byLang[lang]).Draw(t, "probe-entry")
 		opt := rapid.IntRange(0, 3).Draw(t, "options")
-		mode := rapid.SampledFrom([]string{"reverse", "stride"}).Draw(t, "order")
+		mode := rapid.SampledFrom([]string{"reverse", "stride", "parallel", "parallel"}).Draw(t, "order")
 		seed := rapid.IntRange(1, 50).Draw(t, "stride")
 		probes := probeList(lang)
 		cmd := exec.Command(os.Args[0], "-test.run", "^TestChildProbes$", "-test.v")
 		cmd.Env = append(os.Environ(), fmt.Sprintf("VERIF_C20_CHILD=%s %d %d %s %d", lang, pe, opt, mode, seed), "VERIF_EV_OUT=")
 		out, err := cmd.Output()
 		if err != nil {
+			if ee, ok := err.(*exec.ExitError); ok && (bytes.Contains(ee.Stderr, []byte("DATA RACE")) || bytes.Contains(ee.Stderr, []byte("fatal error:")) || bytes.Contains(out, []byte("DATA RACE")) || bytes.Contains(out, []byte("fatal error:"))) {
+				t.Fatalf("%s, probes in %s order in a fresh process: the process dies with a data race or a fatal error\n%.3000s\n%.3000s", entries[pe].name, mode, out, ee.Stderr)
+			}
 			t.Fatalf("VERIF-INFRA child process failed: %v\n%.2000s", err, out)
 		}
 		child := map[int]string{}
